@@ -36,6 +36,7 @@ VERUS_PROPS = {
     "C10": dict(units=ALL_TYPES + ["F64"]),
     "C11": dict(units=["Dual", "Dual2", "DualVec", "Dual2Vec"]),
     "C15": dict(units=ALL_TYPES + ["F64"]),
+    "C18": dict(units=ALL_TYPES, only_exec=True),
 }
 
 
@@ -78,14 +79,19 @@ def verus_route(pid, tier):
         uf = pl.assemble_spec() if u == "Spec" else pl.assemble(u, metas[u])
         ufs[u] = uf
         jobs.append(((u, "root"), uf.path, "root"))
-        for k in uf.nl_modes + uf.ex_modes:
+        for k in ([] if cfg.get("only_exec") else uf.nl_modes) + uf.ex_modes:
             jobs.append(((u, k), uf.path, k))
-        jobs.append(((u, "canary"), uf.path, "canary"))
+        if not cfg.get("only_exec"):
+            jobs.append(((u, "canary"), uf.path, "canary"))
     # big units first
     jobs.sort(key=lambda j: -os.path.getsize(j[1]))
     res = pl.run_many(jobs)
     for u, uf in ufs.items():
-        res[(u, "nl")] = pl.merge_results([res[(u, k)] for k in uf.nl_modes])
+        if cfg.get("only_exec"):
+            res[(u, "nl")] = None
+            res[(u, "canary")] = None
+        else:
+            res[(u, "nl")] = pl.merge_results([res[(u, k)] for k in uf.nl_modes])
         res[(u, "root")] = pl.merge_results([res[(u, "root")]] + [res[(u, k)] for k in uf.ex_modes])
     obs = []
     info = dict(units={}, expand_s=round(t_exp, 1))
@@ -98,15 +104,15 @@ def verus_route(pid, tier):
         info["units"][u] = dict(
             functions_under_contract=n_fn,
             lemmas=n_lem,
-            canaries_failed_as_required=res[(u, "canary")].errors,
+            canaries_failed_as_required=res[(u, "canary")].errors if res[(u, "canary")] else 0,
             verus_verified_root=res[(u, "root")].verified,
-            verus_verified_nl=res[(u, "nl")].verified,
-            wall_s=dict(root=round(res[(u, "root")].wall, 1), nl=round(res[(u, "nl")].wall, 1), canary=round(res[(u, "canary")].wall, 1)),
+            verus_verified_nl=res[(u, "nl")].verified if res[(u, "nl")] else 0,
+            wall_s=dict(root=round(res[(u, "root")].wall, 1), nl=round(res[(u, "nl")].wall, 1) if res[(u, "nl")] else 0, canary=round(res[(u, "canary")].wall, 1) if res[(u, "canary")] else 0),
             skipped=metas[u]["skipped"],
             rewrite_rule_counts=metas[u]["rewrite_rule_counts"],
             assumption_scan=scan_assumptions(uf.path),
             generated_file=os.path.relpath(uf.path, VERIF),
-            cmds=[res[(u, m)].cmd for m in ("root", "nl", "canary")],
+            cmds=[res[(u, m)].cmd for m in ("root", "nl", "canary") if res[(u, m)]],
         )
     info["wall_s"] = round(time.time() - t0, 1)
     return obs, info, metas
@@ -125,6 +131,7 @@ def required_anchors(pid, metas):
         "C09": ["powi", "powf", "powd"],
         "C10": ["powi", "powf", "atan2", "sph_j0", "sph_j1", "sph_j2", "exp_m1", "ln_1p"],
         "C15": ["sph_j0", "sph_j1", "sph_j2"],
+        "C18": ["fmt"],
     }.get(pid, [])
     lost = []
     for u, m in metas.items():
